@@ -149,6 +149,47 @@ fn unbacked(t: i32, k: u32, wrap: bool) -> Vec<u8> {
     f
 }
 
+/// Class (f): like `unbacked`, but `real` points (or part offsets / index entries) ARE present
+/// before the data runs out. The amounts straddle powers of two, where pre-allocation caps
+/// and growth policies change behaviour, so "reserve the declared count once N elements
+/// were really read" cannot hide behind a small first allocation.
+fn partially_backed(t: i32, k: u32, real: usize, what: u8) -> Vec<u8> {
+    let mut f = unbacked(t, k, false);
+    f.truncate(f.len() - 24);
+    match what {
+        0 => {
+            // real points behind a declared count of 2^k
+            for i in 0..real {
+                f.extend_from_slice(&(i as f64).to_le_bytes());
+                f.extend_from_slice(&(1.0f64).to_le_bytes());
+            }
+        }
+        _ => {
+            // many declared parts, `real` part offsets present (all zero = empty parts)
+            if !gen::is_multipoint(t) {
+                let parts_at = 100 + 8 + 4 + 32;
+                put(&mut f, parts_at, 1i32 << k.min(30), false);
+                f.truncate(parts_at + 8);
+                for _ in 0..real {
+                    f.extend_from_slice(&0i32.to_le_bytes());
+                }
+            }
+        }
+    }
+    f
+}
+
+/// An index with `real` entries present while its header declares 2^k.
+fn partially_backed_index(k: u32, real: usize, entry: (i32, i32)) -> Vec<u8> {
+    let mut f = unbacked_index(k);
+    f.truncate(100);
+    for _ in 0..real {
+        f.extend_from_slice(&entry.0.to_be_bytes());
+        f.extend_from_slice(&entry.1.to_be_bytes());
+    }
+    f
+}
+
 /// An index file declaring 2^k entries with nothing behind them.
 fn unbacked_index(k: u32) -> Vec<u8> {
     let mut f = vec![0u8; 100];
@@ -352,6 +393,42 @@ pub fn enumerate(bases: &[Base], ctx: &Ctx, want: &dyn Fn(u64) -> bool, f: &mut 
             let b = &bases[0];
             Input { shp: b.shp.clone(), shx: Some(unbacked_index(k)), desc: format!("index header declares 2^{} entries", k), class: "e:consistent-but-unbacked" }
         });
+    }
+    // (f) partially backed counts: real data up to amounts around powers of two, then nothing
+    let reals: Vec<usize> = if cfg!(miri) {
+        vec![3]
+    } else {
+        let mut v = vec![];
+        for j in 8..=if thorough { 15 } else { 13 } {
+            v.extend_from_slice(&[(1usize << j) - 1, 1 << j, (1 << j) + 1]);
+        }
+        v.push(5000);
+        v
+    };
+    for &t in &[3, 15, 23, 8, 18, 31] {
+        for &real in &reals {
+            for k in [14u32, 17, 20, 22, 24, 27, 28, 30] {
+                if (1usize << k) <= real {
+                    continue;
+                }
+                for what in [0u8, 1] {
+                    case!({
+                        Input { shp: partially_backed(t, k, real, what), shx: None, desc: format!("t{} declares 2^{} {}, {} really present", t, k, if what == 0 { "points" } else { "parts" }, real), class: "f:partially-backed-counts" }
+                    });
+                }
+            }
+        }
+    }
+    for &real in &reals {
+        for k in [14u32, 18, 22, 26, 28] {
+            if (1usize << k) <= real {
+                continue;
+            }
+            case!({
+                let b = &bases[0];
+                Input { shp: b.shp.clone(), shx: Some(partially_backed_index(k, real, (50, 10))), desc: format!("index header declares 2^{} entries, {} really present", k, real), class: "f:partially-backed-counts" }
+            });
+        }
     }
     idx
 }
